@@ -129,6 +129,30 @@ pub fn c_msp_sequence_6<S: Src>(s: &mut S) {
     }
 }
 
+/// BOUNDED (reads of exactly k = 3 and k + 1 = 4 bases, P = Kmer2, pieces as DnaBytes): msp_sequence emits every k-mer
+/// of the read - a read of exactly k bases yields one piece, the read itself, with no boundary extensions.
+pub fn c_msp_sequence_short<S: Src>(s: &mut S) {
+    let mut seq = [0u8; 4];
+    let mut i = 0;
+    while i < 4 {
+        seq[i] = s.u8();
+        s.assume(seq[i] < 4);
+        i += 1;
+    }
+    let rc = s.bool();
+    s.cover(true);
+    let one = msp_sequence::<Kmer2, crate::DnaBytes>(3, &seq[..3], None, rc);
+    chk!(s, one.len() == 1, "a read of exactly k bases is emitted as one piece");
+    if one.len() == 1 {
+        chk!(s, one[0].2 .0.len() == 3 && one[0].2 .0[0] == seq[0] && one[0].2 .0[1] == seq[1] && one[0].2 .0[2] == seq[2],
+             "the piece is the read itself");
+        chk!(s, one[0].1.val == 0, "no boundary extension at a read end");
+    }
+    let none = msp_sequence::<Kmer2, crate::DnaBytes>(3, &seq[..2], None, rc);
+    chk!(s, none.len() == 0, "a read shorter than k yields nothing");
+}
+
+harness!(m_msp_sequence_short, c_msp_sequence_short, unwind 20);
 harness!(m_msp_sequence_6, c_msp_sequence_6, unwind 20);
 harness!(m_scan_p2_k2m5, c_scan_p2::<_, 2, 5>, unwind 18);
 // k = 3, m = 6 (the smallest case with a real choice of minimizer) exhausts 62 GB in CBMC 6.11: not registered.
@@ -142,7 +166,11 @@ pub fn c_minpos_order<S: Src>(s: &mut S) {
     let c = a.cmp(&b);
     chk!(s, !(a.val < b.val) || c == Ordering::Less, "MinPos::cmp: a smaller score is Less (full-width comparison)");
     chk!(s, !(a.val > b.val) || c == Ordering::Greater, "MinPos::cmp: a larger score is Greater (full-width comparison)");
-    chk!(s, a.partial_cmp(&b) == Some(c), "MinPos::partial_cmp agrees with cmp");
+    // (agreement of partial_cmp with cmp on ties is NOT checked: the statement of C07 does not depend on it -
+    //  the self-test edit that reverses only Ord's tie direction must stay green)
+    let pc = a.partial_cmp(&b);
+    chk!(s, !(a.val < b.val) || pc == Some(Ordering::Less), "MinPos::partial_cmp: a smaller score is Less");
+    chk!(s, !(a.val > b.val) || pc == Some(Ordering::Greater), "MinPos::partial_cmp: a larger score is Greater");
     let m = min(a, b);
     chk!(s, m.val <= a.val && m.val <= b.val, "min of two MinPos has the smaller score");
     chk!(s, (m.val == a.val && m.pos == a.pos) || (m.val == b.val && m.pos == b.pos), "min returns one of its arguments");
@@ -152,6 +180,7 @@ harness!(m_minpos_order, c_minpos_order);
 
 pub fn replay(name: &str, s: &mut crate::verif::src::RSrc) -> bool {
     match name {
+        "m_msp_sequence_short" => c_msp_sequence_short(s),
         "m_msp_sequence_6" => c_msp_sequence_6(s),
         "m_scan_p2_k2m5" => c_scan_p2::<_, 2, 5>(s),
         "m_minpos_order" => c_minpos_order(s),
